@@ -288,6 +288,12 @@ class Ctx:
             "wall_s": round(wall, 2),
             "violations": nvi,
         }
+        try:
+            head = subprocess.run(["git", "-C", REPO, "rev-parse", "--short", "HEAD"], capture_output=True, text=True).stdout.strip()
+            dirty = subprocess.run(["git", "-C", REPO, "status", "--porcelain", "--", "src"], capture_output=True, text=True).stdout.strip()
+            cov["repo_under_test"] = {"path": REPO, "head": head, "modified_source_files": [l[3:] for l in dirty.splitlines()]}
+        except Exception:
+            pass
         cov.setdefault("evaluations", int(self.evaluations))
         cov.setdefault("cases", int(self.cases))
         cov.setdefault("distinct_nontrivial", len(self.nt_keys))
